@@ -58,7 +58,7 @@ def validate_catalogue(pid, catalogue):
         for p, text in enumerate(e["prefixes"], 1):
             reqs.append({"cmd": "valid", "input": text})
             meta.append((qi, p, e["kind"], p in e["cp"], text))
-    resp = S.libdrv_batch(reqs, C.workdir(pid, "obs"), "cat", procs=1)
+    resp = S.libdrv_batch(reqs, C.workdir(pid, "obs"), "cat", procs=1, pkg="parsedrv")
     bad = []
     for (qi, p, kind, want, text), r in zip(meta, resp):
         got = r.get("expr") if kind == "expr" else r.get("type")
@@ -104,7 +104,7 @@ def observed_members(dump):
 
 def conform(pid, cases, verdict):
     reqs = [{"cmd": "parse", "input": c["text"]} for c in cases]
-    resp = S.libdrv_batch(reqs, C.workdir(pid, "obs"), "lex")
+    resp = S.libdrv_batch(reqs, C.workdir(pid, "obs"), "lex", pkg="parsedrv")
     ok = 0
     for c, r in zip(cases, resp):
         exp = expected_members(c)
